@@ -7,6 +7,7 @@
 #include "vstd_c.h"
 #include "ghost.h"
 int gh_lc_phase_inner, gh_def_called, gh_need_called; unsigned gh_aux_other;
+int gh_str_empty;
 int gh_lc_phase, gh_chain_bad, gh_cur_valid, gh_aux_called, gh_str_set, gh_str_null, gh_default_set, gh_default_val;
 unsigned gh_versym, gh_cur_ndx, gh_cur_next, gh_cur_aux, gh_match_ndx, gh_match_aux;
 unsigned long gh_size, gh_getverdef_calls, gh_expected_off, gh_cur_off, gh_aux_off, gh_match_off;
@@ -15,7 +16,7 @@ int w_verdef_lookup(void); int w_get_version_for_symbol(unsigned long index, int
 void h_verdef_lookup(void)
 {
   gh_versym = nondet_unsigned() & 0xffff; gh_size = nondet_ulong(); __CPROVER_assume(gh_size <= 0x7fffffffUL);
-  gh_getverdef_calls = 0; gh_expected_off = 0; gh_chain_bad = 0; gh_cur_valid = 0; gh_aux_called = 0; gh_str_set = 0; gh_str_null = 0;
+  gh_getverdef_calls = 0; gh_expected_off = 0; gh_chain_bad = 0; gh_cur_valid = 0; gh_aux_called = 0; gh_str_set = 0; gh_str_null = 0; gh_str_empty = 0;
   gh_default_set = 0; gh_default_val = 0; gh_lc_phase = nondet_int();
   int r = w_verdef_lookup();
   POST(!gh_chain_bad);                                              /* definitions are fetched along the vd_next chain */
@@ -24,12 +25,13 @@ void h_verdef_lookup(void)
   POST(r ==> (long) gh_aux_off == (long) (int) (gh_match_off + gh_match_aux));            /* its name is read from its first Verdaux */
   POST(r ==> (gh_default_val != 0) == ((gh_versym & 0x8000) == 0)); /* hidden bit <=> not the default version */
   POST(!r ==> (gh_str_set == 0 && gh_default_set == 0));
+  POST(r ==> !gh_str_empty);   /* a reported version has a name: the hash-table lookups assert it (U-sysvhash, U-gnuhash rely on this) */
   CANARY_h_verdef_lookup;
 }
 void h_verneed_lookup(void)
 {
   gh_versym = nondet_unsigned() & 0xffff; gh_size = nondet_ulong(); __CPROVER_assume(gh_size <= 0x7fffffffUL);
-  gh_str_set = 0; gh_str_null = 0; gh_default_set = 0; gh_default_val = 0; gh_lc_phase = nondet_int(); gh_lc_phase_inner = nondet_int();
+  gh_str_set = 0; gh_str_null = 0; gh_str_empty = 0; gh_default_set = 0; gh_default_val = 0; gh_lc_phase = nondet_int(); gh_lc_phase_inner = nondet_int();
   int in_null_args = nondet_int() != 0;
   int r = w_verneed_lookup(in_null_args);
   POST(in_null_args ==> !r);
@@ -37,6 +39,7 @@ void h_verneed_lookup(void)
   POST(r ==> gh_aux_other == gh_versym);                            /* the requirement recorded is the one the symbol names */
   POST(r ==> (gh_default_val != 0) == ((gh_versym & 0x8000) == 0));
   POST(!r ==> (gh_str_set == 0 && gh_default_set == 0));
+  POST(r ==> !gh_str_empty);
   CANARY_h_verneed_lookup;
 }
 void h_get_version_for_symbol(void)
